@@ -160,6 +160,7 @@ func runC08(c *an.Ctx) {
 			}
 		}
 		c.Min("C08.c", "driver calls in deleteRangeRaw", nDrv, 2)
+		checkDriversUnderDeletionDeadline(c, "C08.d", d.raw, d.seq, d.par)
 		// every return of raw is preceded by one of the drivers
 		for _, b := range d.raw.Blocks {
 			if r, isRet := b.Instrs[len(b.Instrs)-1].(*ssa.Return); isRet && (b.Index == 0 || len(b.Preds) > 0) {
